@@ -472,6 +472,9 @@ class Interp:
         env_f = dict(env)
         tt = self.exec_expr_tree(e["t"], env_t)
         ft = self.exec_expr_tree(e["e"], env_f) if "e" in e else Leaf("fall", UNIT, env_f)
+        if c[0] == "un" and c[1] == "Not":
+            # canonical polarity: `if !c {a} else {b}` is `if c {b} else {a}`
+            c, tt, ft = c[2], ft, tt
         if c == ("bool", True):
             return tt
         if c == ("bool", False):
